@@ -332,6 +332,41 @@ def run(ctx, res):
         else:
             violate(kind="oracle", layer="L1c", input=toks[1][1], expected=exp, observed=b, failing_input=True,
                     note="range expansion is not the inclusive arithmetic sequence")
+    # several ranges on one line, with and without a step, in every order: each word is its own inclusive sequence with
+    # its own step (1 when none is written) -- nothing carries over from one word to the next
+    # (seed C12-range-step-leaks-to-later-words)
+    rs = [(1, 10, 3), (1, 4, None), (0, 6, 2), (7, 5, None), (9, 1, 4), (-2, 2, None), (3, 3, 5), (2, 8, 1)]
+    multi = []
+    for r1 in rs:
+        for r2 in rs:
+            multi.append([r1, None, r2])
+    for r1, r2, r3 in itertools.product(rs[:5], repeat=3):
+        multi.append([r1, r2, None, r3])
+    lm, mm = [], []
+    for combo in multi:
+        toks, exp = [("", "echo")], [("", "echo")]
+        for r in combo:
+            if r is None:
+                toks.append(("'", "{1..3..2}")); exp.append(("'", "{1..3..2}"))
+                continue
+            x, y, st = r
+            toks.append(("", "{%d..%d%s}" % (x, y, "" if st is None else "..%d" % st)))
+            exp += [retag(str(v)) for v in ref_range(x, y, st or 1)]
+        lm.append(C.case("ebr", "1", X.toks_field(toks)))
+        mm.append((toks, toks_line(exp)))
+    pm = C.write_cases("c12_cm.txt", lm)
+    mo_, io_ = C.run_model(ctx.model["C12"], pm), C.run_impl(ctx.bins["c12"], pm, len(lm), timeout=600)
+    res.count("L1c_multi_range_lines", len(lm))
+    nv = 0
+    for (toks, exp), a, b in zip(mm, mo_, io_):
+        if b != exp or a != b:
+            nv += 1
+            if nv <= 3:
+                violate(kind="oracle" if b != exp else "correspondence", layer="L1c-multi", input=toks_line(toks), expected=exp,
+                        observed=b, model=a, failing_input=b != exp,
+                        note="several brace ranges on one line: each must expand with its own step")
+        else:
+            res.nontrivial("cm:" + toks_line(toks))
     # an operand that does not parse aborts every range of the line (recorded)
     pk = C.write_cases("c12_k2.txt", [C.case("ebr", "1", X.toks_field([("", "{1..2}"), ("", "{1..99999999999}")]))])
     mk, ik = C.run_model(ctx.model["C12"], pk)[0], C.run_impl(ctx.bins["c12"], pk, 1)[0]
